@@ -2,12 +2,19 @@
 
 
 def check(ctx):
+    # Verus: the value-level functions for every spec (enumerations of any length) and every value
+    from contracts import chardata
+    from vxlib.rustsrc import Lost
+    try:
+        ctx.verus_unit(chardata.make_unit(ctx.scratch.dir), finder=None)
+    except Lost as e:
+        ctx.undecided.append('chardata reason=lost anchor: %s' % e)
     specs = [dict(name='version_compat_all', module='chardata', kind='complete', timeout=1500,
                   desc='CharacterData::check_version_compatibility over all value kinds, all 21 target versions, enum specs with up to 3 symbolic (item, mask) entries: (ok, mask) with ok <=> target in mask for enum data against an enum spec; mask is the mask of the first entry for the item, 0 if the item is not in the spec; non-enum spec => (true, u32::MAX); non-enum data against an enum spec => not ok; and ok == check_value(relabelled version)')]
     ctx.kani('autosar-data', specs)
     ctx.kani('autosar-data-specification', [dict(name='version_roundtrip_each', module='autosarversion', kind='complete', timeout=300, covers_optional=True,
                                                  desc='AutosarVersion::compatible(mask) <=> mask contains the version bit, for every declared version')])
     return ctx.finish(
-        explanation='One of the three mechanisms of the property is pure and under contract: the value-level compatibility function. A loop-free Kani harness over all kinds, all declared versions and symbolic enum specs discharges: ok <=> target version in the returned mask (enum data, enum spec), the mask is the spec mask of the value, unknown value => (false, 0), non-enum spec => compatible with everything, and agreement with the validator rule (check_value for the relabelled version). The recursive walk over the element tree (Element::check_version_compatibility, recalc_element_type) and the gate ArxmlFile::set_version take element locks and are not reachable by either verifier (DESIGN F3); they are not covered.',
-        checker_cmd='cargo kani --harness version_compat_all; cargo kani --harness version_roundtrip_each',
-        trusted_base=['Kani 0.68 + CBMC 6.11'])
+        explanation='Verus proves on the real text of CharacterData::check_version_compatibility, check_value, parse and AutosarVersion::compatible, for every value, every spec (enumerations of any length) and every declared version: the check reports no incompatibility exactly when the value is valid for the spec relabelled with the target version, and for enum values the returned mask is the spec mask of the value (0 if unlisted) and contains the target exactly in that case. One of the three mechanisms of the property is pure and under contract: the value-level compatibility function. A loop-free Kani harness over all kinds, all declared versions and symbolic enum specs discharges: ok <=> target version in the returned mask (enum data, enum spec), the mask is the spec mask of the value, unknown value => (false, 0), non-enum spec => compatible with everything, and agreement with the validator rule (check_value for the relabelled version). The recursive walk over the element tree (Element::check_version_compatibility, recalc_element_type) and the gate ArxmlFile::set_version take element locks and are not reachable by either verifier (DESIGN F3); they are not covered.',
+        checker_cmd='verus generated/chardata.rs; cargo kani --harness version_compat_all; cargo kani --harness version_roundtrip_each',
+        trusted_base=['Verus 0.2026.09.13 + Z3', 'Kani 0.68 + CBMC 6.11', 'leaves of the chardata unit: pattern validator call (C19), EnumItem::from_str (C18), str::parse, string bytes -- uninterpreted'])
